@@ -66,6 +66,22 @@ Theorem C06_finalize_ok_wf :
     Forall (fun b => 0 <= b_len b < two32 /\ 0 <= b_ulen b < two32) (p_blobs p).
 Proof. exact finalize_ok_wf. Qed.
 
+(* Add's error paths: a write error or short write breaks the packer; from then on every Add fails without
+   writing, and Finalize fails, for every script of writer faults and every later call sequence *)
+Theorem C06_broken_packer_stays_broken : forall seal open nonce sc pf adds, pf_err pf = true ->
+  fst (runF sc pf adds) = pf /\ Forall (fun ok => ok = false) (snd (runF sc pf adds)) /\
+  finalizeF seal open nonce sc (fst (runF sc pf adds)) = Err EOther.
+Proof. exact broken_packer_stays_broken. Qed.
+Theorem C06_failed_add_breaks : forall sc pf a, snd (addF sc pf a) = false -> pf_err (fst (addF sc pf a)) = true.
+Proof. exact addF_fail_breaks. Qed.
+(* so a Finalize that succeeds on a faulty writer means no Add failed and the file is the fault-free one, to
+   which C06_list_finalize applies *)
+Theorem C06_finalizeF_ok : forall seal open nonce sc adds f,
+  finalizeF seal open nonce sc (fst (runF sc (mkPF new_packer false 0) adds)) = Ok f ->
+  Forall (fun ok => ok = true) (snd (runF sc (mkPF new_packer false 0) adds)) /\
+  finalize seal open nonce (padds new_packer adds) = Ok f.
+Proof. exact finalizeF_ok. Qed.
+
 (* the oracle run on the implementation's observables means the property *)
 Theorem C06_oracle_sound : forall c, check_C06 c = true -> C06_holds c.
 Proof. exact check_C06_sound. Qed.
@@ -82,5 +98,8 @@ Print Assumptions C06_header_full_bound.
 Print Assumptions C06_header_full_exact.
 Print Assumptions C06_parse_entries_inj.
 Print Assumptions C06_finalize_ok_wf.
+Print Assumptions C06_broken_packer_stays_broken.
+Print Assumptions C06_failed_add_breaks.
+Print Assumptions C06_finalizeF_ok.
 Print Assumptions C06_oracle_sound.
 Print Assumptions C06_model_meets_oracle.
